@@ -169,6 +169,15 @@ func runC13(c *core.Ctx) {
 				c.Violate(fmt.Sprintf("is-tree/got=%v/%s", got, famShort(l.Fam)), "Is on a multi-cause error is not (self-match or some branch matches)",
 					fmt.Sprintf("%s\nmulti layer %T, ref (%s) %T %q (panic %v)", t, l.Err, r.Origin, r.Err, r.Err, p))
 			}
+			// IsAny with this one reference (plus one that never matches) decides like Is: whatever the
+			// route of the match -- identity, an Is method, or mark equivalence INSIDE a branch
+			if p == nil {
+				var one bool
+				if p1 := core.Try(func() { one = errors.IsAny(l.Err, c18never, r.Err) }); p1 != nil || one != got {
+					c.Violate(fmt.Sprintf("isany-single/got=%v/%s", one, r.Origin), "IsAny(e, r) differs from Is(e, r) on a multi-cause error",
+						fmt.Sprintf("%s\nmulti layer %T, ref (%s) %T %q (panic %v)", t, l.Err, r.Origin, r.Err, r.Err, p1))
+				}
+			}
 			anyWant = anyWant || wantIs
 			pool = append(pool, r.Err)
 		}
